@@ -272,7 +272,7 @@ func c08EvalName(t *fw.T, c *fw.Case) {
 
 // ---- targets ----
 
-var c08TargetKinds = []string{"same-name-other-dir", "same-name-other-dir-missing", "case-differs", "absent", "directory", "empty", "enotdir", "eloop", "dangling-symlink", "self", "cycle2", "cycle3", "jsight-in-include", "symlink-outside", "deep-ok", "same-file-twice"}
+var c08TargetKinds = []string{"same-name-other-dir", "same-name-other-dir-missing", "case-differs", "absent", "directory", "empty", "enotdir", "eloop", "dangling-symlink", "self", "cycle2", "cycle3", "jsight-in-include", "symlink-outside", "deep-ok", "same-file-twice", "fifo", "device"}
 
 func c08GenTarget(r *xrand.Rand, idx int, tier string) *fw.Case {
 	kind := c08TargetKinds[idx%len(c08TargetKinds)]
@@ -304,6 +304,12 @@ func c08GenTarget(r *xrand.Rand, idx int, tier string) *fw.Case {
 	case "empty":
 		files["empty.jst"] = []byte{}
 		root += wrap("INCLUDE empty.jst")
+	case "fifo":
+		files["pipe.jst@fifo"] = nil
+		root += wrap("INCLUDE pipe.jst")
+	case "device":
+		files["zero.jst@symlink"] = []byte("/dev/zero")
+		root += wrap("INCLUDE zero.jst")
 	case "enotdir":
 		files["file.jst"] = []byte("TYPE @f any\n")
 		root += wrap("INCLUDE file.jst/inner.jst")
@@ -397,7 +403,7 @@ func c08EvalTarget(t *fw.T, c *fw.Case) {
 		t.Violation("include-resolved-against-wrong-directory", fmt.Sprintf("INCLUDE resp.jst written in sub/more.jst must name sub/resp.jst: %s", fw.Short(o.JSON, 300)))
 		return
 	}
-	mustReject := map[string]bool{"same-name-other-dir-missing": true, "absent": true, "directory": true, "enotdir": true, "eloop": true, "dangling-symlink": true, "self": true, "cycle2": true, "cycle3": true, "jsight-in-include": true}
+	mustReject := map[string]bool{"same-name-other-dir-missing": true, "absent": true, "directory": true, "enotdir": true, "eloop": true, "dangling-symlink": true, "self": true, "cycle2": true, "cycle3": true, "jsight-in-include": true, "fifo": true, "device": true}
 	mustAccept := map[string]bool{"same-name-other-dir": true, "case-differs": true, "deep-ok": true, "same-file-twice": true}
 	switch {
 	case mustReject[kind] && o.Outcome != run.Rejected:
